@@ -123,7 +123,8 @@ def refute(eng, o, extra_nonspec, timeout_ms=10000):
     for f in extra_nonspec:
         s.add(f)
     s.add(z3.Not(map_symbols(o.goal, table, cache)))
-    r = s.check()
+    from .verify import _checked
+    r = _checked(s, timeout_ms)
     if r == z3.sat:
         return "sat", s.model()
     return str(r), None
